@@ -1,5 +1,5 @@
-(* Proofs/MunkresStepT6.v -- step 6 never raises (events > 0) and creates an uncovered zero, provided the
-   diagonal of the padded input sums to less than sys.maxsize (so that find_smallest returns a real entry). *)
+(* Proofs/MunkresStepT6.v -- step 6 never raises (events > 0) and creates an uncovered zero: an uncovered row and
+   an uncovered column exist, so find_smallest returns the true minimum of the uncovered cells. *)
 From Coq Require Import ZArith List Bool Arith Lia Permutation.
 From Verif.Model Require Import Munkres.
 From Verif.Proofs Require Import MunkresDuality MunkresSpec MunkresInvLib MunkresInvDefs MunkresStep123 MunkresStep46
@@ -28,31 +28,12 @@ Qed.
 Section StepT6.
   Variable n : nat.
   Variable M0 : nat -> nat -> Z.
-  Hypothesis Hdiag : lsum (map (fun i => M0 i i) (seq 0 n)) < zmaxsize.
-
-  Lemma dual_le_diag : forall s u v, nonneg n s ->
-    (forall i j, (i < n)%nat -> (j < n)%nat -> M0 i j = gC s i j + u i + v j) ->
-    dsum n u v <= lsum (map (fun i => M0 i i) (seq 0 n)).
-  Proof.
-    intros s u v NN H.
-    set (l := map (fun i => (i, i)) (seq 0 n)).
-    assert (F1 : map fst l = seq 0 n) by (unfold l; rewrite map_map; simpl; apply map_id).
-    assert (F2 : map snd l = seq 0 n) by (unfold l; rewrite map_map; simpl; apply map_id).
-    pose proof (pcost_decomp n M0 (gC s) u v l H ltac:(rewrite F1; apply Permutation_refl)
-                  ltac:(rewrite F2; apply Permutation_refl)) as E.
-    assert (P0 : 0 <= pcost (gC s) l).
-    { unfold pcost. apply lsum_nonneg. intros [i j] HI. unfold l in HI. apply in_map_iff in HI.
-      destruct HI as [k [E' Hk]]. inversion E'; subst. simpl. apply in_seq in Hk. apply NN; lia. }
-    assert (PM : pcost M0 l = lsum (map (fun i => M0 i i) (seq 0 n))).
-    { unfold pcost, l. rewrite map_map. reflexivity. }
-    unfold dsum. lia.
-  Qed.
 
   Lemma step6_T : forall s, T4 n M0 s ->
     exists s', zstep6 s = Some s' /\ T4 n M0 s' /\ sRC s' = sRC s /\ kc n s' = kc n s
       /\ exists i j, (i < n)%nat /\ (j < n)%nat /\ uncovered_zero Z 0 Z.eqb s' i j = true.
   Proof.
-    intros s T. pose proof T as [P [[u [v [Huv D0]]] [K [CN [CP RK]]]]].
+    intros s T. pose proof T as [P [K [CN [CP RK]]]].
     pose proof P as [B [SCV PO]]. pose proof (b_wf _ _ _ B) as W. pose proof W as [SC [SM [Lr Lc]]].
     pose proof (cnt_le (sRC s)) as CR. pose proof (cnt_le (sCC s)) as CCl.
     destruct (cnt_exists_false (sRC s) ltac:(lia)) as [i0 [Hi0 Ri0]].
@@ -62,10 +43,7 @@ Section StepT6.
     { unfold zstep6, step6. destruct (Z.eqb_spec (events Z s) 0) as [X|_]; [lia | eexists; reflexivity]. }
     destruct E as [s' E]. exists s'. split; [exact E|].
     pose proof (step6_P n M0 s s' P E) as P'.
-    destruct (find_smallest_spec n s W) as [F1 [F2 F3]]. set (m := zfind_smallest s) in *.
-    assert (Mnn : 0 <= m).
-    { destruct F3 as [X|[i [j [Hi [Hj [_ [_ X]]]]]]]; [rewrite X; unfold zmaxsize; lia|].
-      rewrite X. apply (b_nonneg _ _ _ B); assumption. }
+    destruct (find_smallest_spec n s W) as [F2 [F3 F4]]. set (m := zfind_smallest s) in *.
     assert (GC : forall i j, (i < n)%nat -> (j < n)%nat ->
               gC s' i j = gC s i j + (if rcov s i then m else 0) - (if ccov s j then 0 else m))
       by (intros; apply (step6_C n); assumption).
@@ -76,37 +54,15 @@ Section StepT6.
     assert (ERC : sRC s' = sRC s) by (rewrite ES; reflexivity).
     assert (ECC : sCC s' = sCC s) by (rewrite ES; reflexivity).
     assert (EK : kc n s' = kc n s) by (rewrite ES; reflexivity).
-    (* the new potentials and the growth of the dual objective *)
-    set (u' := fun i => u i - (if rcov s i then m else 0)).
-    set (v' := fun j => v j + (if ccov s j then 0 else m)).
-    assert (Huv' : forall i j, (i < n)%nat -> (j < n)%nat -> M0 i j = gC s' i j + u' i + v' j).
-    { intros i j Hi Hj. rewrite GC by assumption. rewrite (Huv i j Hi Hj). unfold u', v'. lia. }
-    set (Gn := length (filter (fun j => negb (ccov s j)) (seq 0 n))).
-    assert (EG : (cnt (sCC s) + Gn = n)%nat).
-    { unfold Gn. rewrite cnt_eq_filter, Lc. rewrite <- (seq_length n 0) at 3.
-      apply (filter_negb_length (fun j => nth j (sCC s) false)). }
-    assert (SU : lsum (map u' (seq 0 n)) = lsum (map u (seq 0 n)) - m * Z.of_nat (cnt (sRC s))).
-    { unfold u'. rewrite lsum_map_sub. rewrite (lsum_indicator (fun i => rcov s i) m).
-      rewrite cnt_eq_filter, Lr. reflexivity. }
-    assert (SV : lsum (map v' (seq 0 n)) = lsum (map v (seq 0 n)) + m * Z.of_nat Gn).
-    { unfold v'. rewrite lsum_map_add. f_equal.
-      rewrite (lsum_map_ext _ (fun j => if negb (ccov s j) then m else 0)).
-      - apply (lsum_indicator (fun j => negb (ccov s j)) m).
-      - intros j _. destruct (ccov s j); reflexivity. }
-    assert (DD : dsum n u' v' = dsum n u v + m * (Z.of_nat Gn - Z.of_nat (cnt (sRC s)))).
-    { unfold dsum. rewrite SU, SV. ring. }
-    assert (GAP : 1 <= Z.of_nat Gn - Z.of_nat (cnt (sRC s))) by lia.
-    assert (DG : dsum n u v + m <= dsum n u' v') by (rewrite DD; nia).
-    pose proof (dual_le_diag s' u' v' (b_nonneg _ _ _ (proj1 P')) Huv') as DL.
-    assert (ML : m < zmaxsize) by lia.
     split; [|split; [exact ERC | split; [exact EK|]]].
-    - split; [exact P'|]. split; [exists u', v'; split; [exact Huv' | lia]|].
+    - split; [exact P'|].
       split; [rewrite EK; exact K|]. split; [rewrite ERC, ECC, EK; exact CN|]. split.
       + intros i H. rewrite GR in H. destruct (CP i H) as [j Hj]. exists j. rewrite GM. exact Hj.
       + destruct RK as [rank [bound [HB PR]]]. exists rank, bound. split.
         * intros i H. rewrite GR in H. apply HB. exact H.
         * intros i j i'. rewrite !GM. apply PR.
-    - destruct F3 as [X|[i [j [Hi [Hj [Ri [Cj X]]]]]]]; [lia|].
+    - destruct F4 as [i [j [Hi [Hj [Ri [Cj X]]]]]].
+      { exists i0, j0. rewrite Lr in Hi0. rewrite Lc in Hj0. auto. }
       exists i, j. split; [exact Hi|]. split; [exact Hj|].
       apply uncovered_zero_true. rewrite GR, GCC. split; [|split; assumption].
       rewrite GC by assumption. rewrite Ri, Cj. lia.
